@@ -452,11 +452,12 @@ def runKind (copied : List (String × String)) (k : Kind) (sh : Shell) (body : S
   let childSh : Shell := r.2
   -- the child exits with its `$?` (`exit_or_raise`), or was killed
   let childStatus := childSh.halted.getD childSh.env.exitStatus
-  let parent0 : Shell := { sh with env := r.1, events := sh.events ++ childSh.events }
-  let parent1 := if k == .async then applyOps parent0 during else parent0
-  let st := kindStatus k (parent1.env.options.contains "pipefail") childStatus
+  -- the parent's own mutators between `&` and `wait` run on the parent's environment as restored
+  let p := applyOps { env := r.1 } (if k == .async then during else [])
+  let st := kindStatus k (p.env.options.contains "pipefail") childStatus
   let evs := if k == .subst then [s!"sub:0", s!"st:{st}"] else [s!"st:{st}"]
-  { parent1 with env := { parent1.env with exitStatus := st }, events := parent1.events ++ evs }
+  { env := { p.env with exitStatus := st }, halted := p.halted,
+    events := sh.events ++ childSh.events ++ p.events ++ evs }
 
 /-! ## A whole case -/
 
